@@ -71,9 +71,11 @@ pub fn file_values(tier: Tier) -> Vec<(String, String)> {
     }
     // numeric counts of every JSON number class, incl. out of range and huge
     for ty in ["i8", "u8", "i64", "u64", "f32", "f64"] {
-        for n in ["0", "-1", "255", "256", "-129", "1.5", "1e400", "-1e400", "18446744073709551615", "18446744073709551616", "-9223372036854775809", "1e-400"] {
+        for n in ["0", "-1", "255", "256", "-129", "1.5", "0.5", "-0.1", "1e-3", "2.0", "1e3", "1e400", "-1e400", "18446744073709551615", "18446744073709551616", "-9223372036854775809", "1e-400"] {
             inputs.push(("range-number".into(), format!("[\"{ty}\", [\"x\", {n}], [\"y\"]]")));
             inputs.push(("fk-count".into(), json_string(&format!("$t(r, {{\"count\": {n}}})"), false)));
+            // the same literal handed to a plural (cardinal and, through the renamed forms, ordinal)
+            inputs.push(("fk-count-plural".into(), json_string(&format!("$t(p, {{\"count\": {n}}})"), false)));
         }
     }
     // ---- (4) wrong JSON types ----------------------------------------------------------------------------
